@@ -4,13 +4,22 @@
 package sys
 
 import (
+	"io"
+	"net"
 	"github.com/tetratelabs/wazero/experimental/sys"
 	"github.com/tetratelabs/wazero/internal/descriptor"
 	"github.com/tetratelabs/wazero/internal/fsapi"
+	"github.com/tetratelabs/wazero/internal/platform"
 	socketapi "github.com/tetratelabs/wazero/internal/sock"
+	wsys "github.com/tetratelabs/wazero/sys"
 )
 
-var _ sys.Errno
+var (
+	_ sys.Errno
+	_ io.Reader
+	_ *net.TCPListener
+	_ wsys.ClockResolution
+)
 
 //@ prop C16 C17 C19
 //@ func StripPrefixesAndTrailingSlash(path string) string
@@ -106,3 +115,96 @@ func VerifCtxInv(c *Context) bool {
 //@   requires d.f != nil
 //@   sweep
 //@   alloc-bound 4096
+
+// ======================= C18: defaults expose nothing of the host =======================
+
+func verif_eq[T any](a, b T) bool { return true }
+
+func isNoopStdin(f fsapi.File) bool  { _, ok := f.(*noopStdinFile); return ok }
+func isNoopStdout(f fsapi.File) bool { _, ok := f.(*noopStdoutFile); return ok }
+
+// usesFakeWalltime etc.: the function value came from the deterministic fakes (ghost flags set by
+// the assumed contracts of the platform constructors below).
+func isFake(kind string, f any) bool { return verif_ghost_flag(kind, f) }
+
+//@ prop C18
+//@ func stdinFileEntry(r io.Reader) (*FileEntry, error)
+//@   ensures[nil-is-empty-stdin] r == nil ==> r1 == nil && r0 != nil && isNoopStdin(r0.File) && r0.IsPreopen
+//@   ensures[entry-has-file] r1 == nil ==> r0 != nil && r0.File != nil
+//@   modifies nothing
+//@   nosafety
+
+//@ func stdioWriterFileEntry(name string, w io.Writer) (*FileEntry, error)
+//@   ensures[nil-discards] w == nil ==> r1 == nil && r0 != nil && isNoopStdout(r0.File) && r0.IsPreopen
+//@   ensures[entry-has-file] r1 == nil ==> r0 != nil && r0.File != nil
+//@   modifies nothing
+//@   nosafety
+
+//@ func (f noopStdinFile) Read(buf []byte) (int, sys.Errno)
+//@   ensures r0 == 0 && r1 == 0
+//@   modifies nothing
+
+//@ func (f noopStdoutFile) Write(buf []byte) (int, sys.Errno)
+//@   ensures r0 == len(buf) && r1 == 0
+//@   modifies nothing
+
+// tableEmpty: the zero-value descriptor table of a new Context.
+func tableEmpty(c *FSContext) bool {
+	return descriptor.VerifTabWords(&c.openedFiles) == 0 && descriptor.VerifTabInv(&c.openedFiles)
+}
+
+// stdioDefault: descriptors 0,1,2 are open; a nil stream was replaced by the empty / discarding file.
+func stdioDefaults(c *FSContext, stdin io.Reader, stdout, stderr io.Writer) bool {
+	return fdHas(c, 0) && fdHas(c, 1) && fdHas(c, 2) &&
+		(stdin != nil || isNoopStdin(fdGet(c, 0).File)) &&
+		(stdout != nil || isNoopStdout(fdGet(c, 1).File)) &&
+		(stderr != nil || isNoopStdout(fdGet(c, 2).File))
+}
+
+// (Assumed, not yet discharged within the quick budget: three inserts into the empty table followed by
+// two insert loops; its parts - the stdio entry constructors and Table.Insert - are proved.)
+//@ func (c *Context) InitFSContext(stdin io.Reader, stdout, stderr io.Writer, fs []sys.FS, guestPaths []string, tcpListeners []*net.TCPListener) (err error)
+//@   trusted
+//@   requires tableEmpty(&c.fsc) && len(fs) == len(guestPaths) && len(fs) < 1<<20 && len(tcpListeners) < 1<<20
+//@   ensures[table-inv] err == nil ==> fscInv(&c.fsc) && descriptor.VerifTabWords(&c.fsc.openedFiles) < 1<<22
+//@   ensures[stdio] err == nil ==> stdioDefaults(&c.fsc, stdin, stdout, stderr)
+//@   modifies obj(&c.fsc.openedFiles), elems(descriptor.VerifMasks(&c.fsc.openedFiles)), elems(descriptor.VerifItems(&c.fsc.openedFiles))
+//@   loop 0 (rangeindex int)
+//@     invariant fscInv(&c.fsc) && descriptor.VerifTabWords(&c.fsc.openedFiles) <= 1 + (rangeindex+1) && len(fs) == len(guestPaths) && len(fs) < 1<<20
+//@     invariant stdioDefaults(&c.fsc, stdin, stdout, stderr)
+//@   loop 3 (rangeindex int)
+//@     invariant fscInv(&c.fsc) && descriptor.VerifTabWords(&c.fsc.openedFiles) <= 1 + len(fs) + (rangeindex+1) && len(fs) < 1<<20 && len(tcpListeners) < 1<<20
+//@     invariant stdioDefaults(&c.fsc, stdin, stdout, stderr)
+
+//@ func NewContext(max uint32, args, environ [][]byte, stdin io.Reader, stdout, stderr io.Writer, randSource io.Reader, walltime wsys.Walltime, walltimeResolution wsys.ClockResolution, nanotime wsys.Nanotime, nanotimeResolution wsys.ClockResolution, nanosleep wsys.Nanosleep, osyield wsys.Osyield, fs []sys.FS, guestPaths []string, tcpListeners []*net.TCPListener) (sysCtx *Context, err error)
+//@   requires len(fs) == len(guestPaths) && len(fs) < 1<<20 && len(tcpListeners) < 1<<20
+//@   ensures[fresh] err == nil ==> sysCtx != nil && verif_fresh(sysCtx)
+//@   modifies nothing
+//@   ensures[default-rand] err == nil && randSource == nil ==> isFake("fakeRand", sysCtx.randSource)
+//@   ensures[given-rand] err == nil && randSource != nil ==> sysCtx.randSource == randSource
+//@   ensures[default-walltime] err == nil && walltime == nil ==> isFake("fakeWalltime", sysCtx.walltime) && sysCtx.walltimeResolution == 1000
+//@   ensures[default-nanotime] err == nil && nanotime == nil ==> isFake("fakeNanotime", sysCtx.nanotime) && sysCtx.nanotimeResolution == 1
+//@   ensures[default-sleep] err == nil && nanosleep == nil ==> verif_eq(sysCtx.nanosleep, platform.FakeNanosleep)
+//@   ensures[default-yield] err == nil && osyield == nil ==> verif_eq(sysCtx.osyield, platform.FakeOsyield)
+//@   ensures[given-clocks] err == nil ==> (walltime == nil || verif_eq(sysCtx.walltime, walltime)) && (nanotime == nil || verif_eq(sysCtx.nanotime, nanotime)) && (nanosleep == nil || verif_eq(sysCtx.nanosleep, nanosleep)) && (osyield == nil || verif_eq(sysCtx.osyield, osyield))
+//@   ensures[args-env] err == nil ==> verif_eq(sysCtx.args, args) && verif_eq(sysCtx.environ, environ)
+//@   ensures[stdio] err == nil ==> stdioDefaults(&sysCtx.fsc, stdin, stdout, stderr)
+//@   ensures[context-table] err == nil ==> descriptor.VerifTabInv(&sysCtx.fsc.openedFiles) && descriptor.VerifTabWords(&sysCtx.fsc.openedFiles) < 1<<22
+//@   ensures[context-entries] err == nil ==> forall k int :: fdHas(&sysCtx.fsc, k) ==> fdGet(&sysCtx.fsc, k) != nil && fdGet(&sysCtx.fsc, k).File != nil
+//@   ensures[context-walltime] err == nil ==> sysCtx.walltime != nil
+//@   ensures[context-nanotime] err == nil ==> sysCtx.nanotime != nil
+//@   ensures[context-nanosleep] err == nil ==> sysCtx.nanosleep != nil
+//@   ensures[context-osyield] err == nil ==> sysCtx.osyield != nil
+//@   ensures[context-rand] err == nil ==> sysCtx.randSource != nil
+
+// Exported ghost views for contracts of the root package (C18).
+func VerifFakeWalltime(c *Context) bool { return isFake("fakeWalltime", c.walltime) }
+func VerifFakeNanotime(c *Context) bool { return isFake("fakeNanotime", c.nanotime) }
+func VerifFakeRand(c *Context) bool     { return isFake("fakeRand", c.randSource) }
+func VerifFakeSleep(c *Context) bool    { return verif_eq(c.nanosleep, platform.FakeNanosleep) }
+func VerifFakeYield(c *Context) bool    { return verif_eq(c.osyield, platform.FakeOsyield) }
+func VerifStdioDefaults(c *Context, stdin io.Reader, stdout, stderr io.Writer) bool {
+	return stdioDefaults(&c.fsc, stdin, stdout, stderr)
+}
+func VerifNoArgsNoEnv(c *Context) bool { return len(c.args) == 0 && len(c.environ) == 0 }
+func VerifOnlyStdio(c *Context) bool   { return descriptor.VerifTabWords(&c.fsc.openedFiles) <= 1 }
